@@ -173,6 +173,7 @@ def run(ctx, scratch):
         _state_probes(ctx, main, desc, nmax, quick)
         _gnn_validation(ctx, main, nmax, quick)
         _n_jobs(ctx, main, quick)
+        _python_threads(ctx, main, desc, nmax, quick)
         _static_facts(ctx)
         # ---- (f) set_params histories: an object constructed with OTHER parameter values, fitted, then given the target values
         #      with set_params and refitted must equal an estimator constructed with the target values (a value derived from
@@ -424,6 +425,59 @@ def _n_jobs(ctx, main, quick):
             ctx.violation('PageRankClassifier', 'fit with n_jobs=%r differs from the sequential fit on the same input (repetition %d): %s'
                           % (args['n_jobs'], which, detail[:300]), case=dict(name='PageRankClassifier', family='n_jobs', **args),
                           entry='PageRankClassifier', kind='pool', observed=detail[:300])
+
+
+def _python_threads(ctx, main, desc, nmax, quick):
+    """Separate estimator objects fitted at the same time in Python threads: nothing is shared between two estimators, so each fit
+    is the fit it would be alone (module-level defaults, class attributes and caches are where this breaks)."""
+    from ..compare import compare
+    rng = ctx.rng
+    names = sorted(n for n, d in desc.items() if _is_class(n, desc) and d['deterministic'] and d['seeds'] != 'sources'
+                   and not n.startswith('GNNClassifier') and '[' not in n)
+    always = [n for n in ('SVD', 'GSVD', 'PCA', 'Spectral', 'HITS', 'PageRank', 'Louvain') if n in names]
+    chosen = always + rng.sample([n for n in names if n not in always], min(len(names) - len(always), 6 if quick else len(names)))
+    for name in chosen:
+        d = desc[name]
+        jobs = []
+        for _ in range(40):
+            spec, opts, fam = prepare(rng, name, d, nmax)
+            if cases.degenerate(main, name, spec, opts):
+                ctx.margin_dropped += 1
+                continue
+            jobs.append(dict(name=name, m=spec, opts=opts))
+            if len(jobs) == 4:
+                break
+        if len(jobs) < 2:
+            continue
+        repeat = (25 if name in always else 6) * (1 if quick else 3)
+        slow = name in always and rng.random() < 0.7
+        if slow:
+            repeat = max(4, repeat // 4)
+        r = main.call('c16', 'python_threads', dict(jobs=jobs, repeat=repeat, slow_solvers=slow), timeout=300)
+        ctx.traces += 4 * repeat
+        ctx.count(name + ':python_threads', ('pythreads', name, repr(jobs)), True)
+        if 'ok' not in r:
+            if 'hang' in r or 'crash' in r:
+                ctx.violation(name, 'concurrent fits of separate estimators in Python threads do not return', case=dict(name=name, family='python_threads', jobs=jobs),
+                              entry=name, kind='python_threads', observed={k_: r[k_] for k_ in r if k_ != 'tb'})
+            continue
+        for t, (ref, outs) in enumerate(zip(r['ok']['ref'], r['ok']['threads'])):
+            bad = None
+            for k, o in enumerate(outs):
+                if ('ok' in ref) != ('ok' in o):
+                    bad = (k, 'alone: %s / in a thread: %s' % (ref.get('err', 'a result'), o.get('err', 'a result')))
+                    break
+                if 'ok' in ref:
+                    diff = compare(ref['ok'], o['ok'], rtol=1e-6, atol=1e-8)
+                    if diff:
+                        bad = (k, '%s: %s' % diff[0])
+                        break
+            if bad:
+                ctx.violation(name, 'a fit running in a Python thread next to fits of OTHER estimator objects differs from the same fit '
+                              'run alone (thread %d, repetition %d): %s' % (t, bad[0], bad[1][:200]),
+                              case=dict(name=name, family='python_threads', jobs=jobs, thread=t, repeat=repeat, slow_solvers=slow), entry=name,
+                              kind='python_threads', observed=bad[1][:300])
+                break
 
 
 def _static_facts(ctx):
